@@ -259,7 +259,7 @@ fn main() {
         "property_id": prop,
         "tier": tier.name(),
         "seed": seed as i64,
-        "level": "exploration",
+        "level": if prop == "C16" || prop == "C01" { "fault_enumeration" } else { "exploration" },
         "coverage": cov,
         "assumptions": rep.assumptions,
         "wall_s": wall,
